@@ -124,6 +124,13 @@ EXCEPTIONS = [
          reason="precondition |num| < 2^62: the only crate-internal caller on C05's paths is encode_vlq_diff, which passes the difference of two widened u32 (C03.R4 who-may-call)", requires=["C03.R4"]),
     dict(fn="vlq::encode_vlq", what="Overflow:Add:i64", desc="Shl(Neg(arg2),1),1", count=1,
          reason="same precondition: (-num << 1) + 1 < 2^63 for |num| < 2^62", requires=["C03.R4"]),
+    # ---- ram bundles (C20 only) -----------------------------------------------------------------------------------------------
+    dict(fn="ram_bundle::IndexedRamBundle::<'a>::get_module", what="Overflow:Mul:usize", desc="arg2,size_of<ModuleEntry>", count=1,
+         reason="dominated by id < self.module_count, and module_count is a widened u32 (set only by parse, C20.R3): id * 8 < 2^35", requires=["C20.R3"]),
+    dict(fn="ram_bundle::IndexedRamBundle::<'a>::get_module", what="Overflow:Add:usize", desc="size_of<RamBundleHeader>,Mul(arg2,size_of<ModuleEntry>)", count=1,
+         reason="12 + id * 8 with id < 2^32", requires=["C20.R3"]),
+    dict(fn="ram_bundle::IndexedRamBundle::<'a>::get_module", what="Overflow:Add:usize", desc="arg1.startup_code_offset,cast<usize>(*.offset)", count=1,
+         reason="startup_code_offset = 12 + 8 * module_count <= 2^35 + 12 (parse, C20.R3) plus a widened u32: far below 2^64", requires=["C20.R3"]),
     # ---- C19 only --------------------------------------------------------------------------------------------------------
     dict(fn="utils::make_relative_path", what="Overflow:Sub:usize", desc="Vec::len(var:Vec<&str>),Option::unwrap_or(Option::map(utils::find_common_prefix_of_sorted_vec(*),closure:make_relative_path::*),0)", count=1,
          reason="prefix is the length of a common prefix of the two component lists, hence <= base_path.len() (helper returns a prefix of the shortest list)", requires=["C19.R2"]),
